@@ -44,7 +44,7 @@ Definition q7 (b4 : N) := N.land b4 31.
 Definition enc5 (b0 b1 b2 b3 b4 : N) : list N :=
   [q0 b0; q1 b0 b1; q2 b1; q3 b1 b2; q4 b2 b3; q5 b3; q6 b3 b4; q7 b4].
 
-Lemma enc_chunk_5 b0 b1 b2 b3 b4 : zb_enc_chunk [b0; b1; b2; b3; b4] = enc5 b0 b1 b2 b3 b4.
+Lemma enc_chunk_5 b0 b1 b2 b3 b4 : crzb_enc_chunk [b0; b1; b2; b3; b4] = enc5 b0 b1 b2 b3 b4.
 Proof. reflexivity. Qed.
 
 Definition r0 (v0 v1 : N) := N.lor (shl8 v0 3) (N.shiftr v1 2).
@@ -54,7 +54,7 @@ Definition r3 (v4 v5 v6 : N) := N.lor (N.lor (shl8 v4 7) (shl8 v5 2)) (N.shiftr 
 Definition r4 (v6 v7 : N) := N.lor (shl8 v6 5) v7.
 
 Lemma dec_chunk_8 v0 v1 v2 v3 v4 v5 v6 v7 :
-  zb_dec_chunk [v0; v1; v2; v3; v4; v5; v6; v7] = [r0 v0 v1; r1 v1 v2 v3; r2 v3 v4; r3 v4 v5 v6; r4 v6 v7].
+  crzb_dec_chunk [v0; v1; v2; v3; v4; v5; v6; v7] = [r0 v0 v1; r1 v1 v2 v3; r2 v3 v4; r3 v4 v5 v6; r4 v6 v7].
 Proof. reflexivity. Qed.
 
 (* sweeps (each a kernel computation over <= 65536 cases) *)
@@ -95,7 +95,7 @@ Proof. apply sweep2. vm_compute. reflexivity. Qed.
 (* ---- the 5-byte group lemma ---- *)
 Lemma chunk_roundtrip b0 b1 b2 b3 b4 :
   b0 < 256 -> b1 < 256 -> b2 < 256 -> b3 < 256 -> b4 < 256 ->
-  zb_dec_chunk (zb_enc_chunk [b0; b1; b2; b3; b4]) = [b0; b1; b2; b3; b4].
+  crzb_dec_chunk (crzb_enc_chunk [b0; b1; b2; b3; b4]) = [b0; b1; b2; b3; b4].
 Proof.
   intros H0 H1 H2 H3 H4. rewrite enc_chunk_5. unfold enc5. rewrite dec_chunk_8.
   f_equal; [|f_equal; [|f_equal; [|f_equal; [|f_equal]]]].
@@ -129,14 +129,14 @@ Qed.
 (* ---------- alphabet ---------- *)
 Definition alpha (q : N) : N := nth (N.to_nat q) ZBASE_ALPHABET 0.
 
-Lemma inv_alpha_sweep : forallb (fun q => match zb_inv (alpha q) with Some q' => q' =? q | None => false end)
+Lemma inv_alpha_sweep : forallb (fun q => match crzb_inv (alpha q) with Some q' => q' =? q | None => false end)
                                 (map N.of_nat (seq 0 32)) = true.
 Proof. vm_compute. reflexivity. Qed.
 
-Lemma inv_alpha q : q < 32 -> zb_inv (alpha q) = Some q.
+Lemma inv_alpha q : q < 32 -> crzb_inv (alpha q) = Some q.
 Proof.
   intros Hq. pose proof inv_alpha_sweep as Hs. rewrite forallb_forall in Hs.
-  specialize (Hs q). destruct (zb_inv (alpha q)) as [q'|].
+  specialize (Hs q). destruct (crzb_inv (alpha q)) as [q'|].
   - assert (Hi : In q (map N.of_nat (seq 0 32))).
     { apply in_map_iff. exists (N.to_nat q). split; [apply N2Nat.id|apply in_seq; lia]. }
     apply Hs in Hi. apply N.eqb_eq in Hi. congruence.
@@ -145,22 +145,22 @@ Proof.
     apply Hs in Hi. discriminate.
 Qed.
 
-Lemma inv_alpha_all qs : Forall (fun q => q < 32) qs -> opt_map_all zb_inv (map alpha qs) = Some qs.
+Lemma inv_alpha_all qs : Forall (fun q => q < 32) qs -> cr_opt_map_all crzb_inv (map alpha qs) = Some qs.
 Proof.
   induction 1 as [|q qs Hq _ IH]; [reflexivity|].
-  cbn [map opt_map_all]. rewrite inv_alpha by exact Hq. rewrite IH. reflexivity.
+  cbn [map cr_opt_map_all]. rewrite inv_alpha by exact Hq. rewrite IH. reflexivity.
 Qed.
 
 (* ---------- the data loop ---------- *)
-Lemma enc_data_nil f : zb_enc_data f [] = [].
+Lemma enc_data_nil f : crzb_enc_data f [] = [].
 Proof. destruct f; reflexivity. Qed.
 
-Lemma dec_data_nil f : zb_dec_data f [] = [].
+Lemma dec_data_nil f : crzb_dec_data f [] = [].
 Proof. destruct f; reflexivity. Qed.
 
-Lemma bytesb_cons b l : bytesb (b :: l) = true -> b < 256 /\ bytesb l = true.
+Lemma bytesb_cons b l : bytes_wf (b :: l) = true -> b < 256 /\ bytes_wf l = true.
 Proof.
-  unfold bytesb. cbn [forallb]. intros Hb. apply andb_true_iff in Hb as [H1 H2].
+  unfold bytes_wf. cbn [forallb]. intros Hb. apply andb_true_iff in Hb as [H1 H2].
   split; [apply N.ltb_lt; exact H1|exact H2].
 Qed.
 
@@ -180,22 +180,22 @@ Qed.
 
 (* one full group in front *)
 Lemma enc_data_step f b0 b1 b2 b3 b4 rest :
-  zb_enc_data (S f) (b0 :: b1 :: b2 :: b3 :: b4 :: rest) = enc5 b0 b1 b2 b3 b4 ++ zb_enc_data f rest.
+  crzb_enc_data (S f) (b0 :: b1 :: b2 :: b3 :: b4 :: rest) = enc5 b0 b1 b2 b3 b4 ++ crzb_enc_data f rest.
 Proof. reflexivity. Qed.
 
 Lemma dec_data_step f v0 v1 v2 v3 v4 v5 v6 v7 rest :
-  zb_dec_data (S f) (v0 :: v1 :: v2 :: v3 :: v4 :: v5 :: v6 :: v7 :: rest) =
-  zb_dec_chunk [v0; v1; v2; v3; v4; v5; v6; v7] ++ zb_dec_data f rest.
+  crzb_dec_data (S f) (v0 :: v1 :: v2 :: v3 :: v4 :: v5 :: v6 :: v7 :: rest) =
+  crzb_dec_chunk [v0; v1; v2; v3; v4; v5; v6; v7] ++ crzb_dec_data f rest.
 Proof. reflexivity. Qed.
 
 (* the quintets that are kept, their number, their range and what they decode to *)
 Lemma data_roundtrip :
-  forall fuel data, (length data <= fuel)%nat -> bytesb data = true ->
-  let Q := firstn (nchars (length data)) (zb_enc_data fuel data) in
+  forall fuel data, (length data <= fuel)%nat -> bytes_wf data = true ->
+  let Q := firstn (nchars (length data)) (crzb_enc_data fuel data) in
   length Q = nchars (length data) /\
   Forall (fun q => q < 32) Q /\
   forall fuel2, (nchars (length data) <= fuel2)%nat ->
-    zb_dec_data fuel2 Q = data ++ repeat 0 (npad (length data)).
+    crzb_dec_data fuel2 Q = data ++ repeat 0 (npad (length data)).
 Proof.
   induction fuel as [|f IH]; intros data Hlen Hb; cbv zeta.
   - destruct data; [|cbn in Hlen; lia]. cbn. repeat split; [constructor|]. intros. rewrite dec_data_nil. reflexivity.
@@ -205,53 +205,53 @@ Proof.
       apply bytesb_cons in Hb as [H0 _].
       assert (Hz : (0 < 256)) by lia.
       cbn [length]. change (nchars 1) with 2%nat. change (npad 1) with 4%nat.
-      change (zb_enc_data (S f) [b0]) with (zb_enc_chunk [b0; 0; 0; 0; 0] ++ zb_enc_data f []).
+      change (crzb_enc_data (S f) [b0]) with (crzb_enc_chunk [b0; 0; 0; 0; 0] ++ crzb_enc_data f []).
       rewrite enc_data_nil, app_nil_r, enc_chunk_5. unfold enc5. cbn [firstn].
       pose proof (enc5_small b0 0 0 0 0 H0 Hz Hz Hz Hz) as Hs. unfold enc5 in Hs.
       split; [reflexivity|]. split.
       * inversion Hs as [|? ? A Hs1]; inversion Hs1 as [|? ? B _]; subst. repeat constructor; assumption.
       * intros fuel2 Hf. destruct fuel2 as [|f2]; [lia|].
-        change (zb_dec_data (S f2) [q0 b0; q1 b0 0]) with (zb_dec_chunk (enc5 b0 0 0 0 0) ++ zb_dec_data f2 []).
+        change (crzb_dec_data (S f2) [q0 b0; q1 b0 0]) with (crzb_dec_chunk (enc5 b0 0 0 0 0) ++ crzb_dec_data f2 []).
         rewrite dec_data_nil, app_nil_r, <- enc_chunk_5, chunk_roundtrip by assumption. reflexivity.
     + apply bytesb_cons in Hb as [H0 Hb]. apply bytesb_cons in Hb as [H1 _].
       assert (Hz : (0 < 256)) by lia.
       cbn [length]. change (nchars 2) with 4%nat. change (npad 2) with 3%nat.
-      change (zb_enc_data (S f) [b0; b1]) with (zb_enc_chunk [b0; b1; 0; 0; 0] ++ zb_enc_data f []).
+      change (crzb_enc_data (S f) [b0; b1]) with (crzb_enc_chunk [b0; b1; 0; 0; 0] ++ crzb_enc_data f []).
       rewrite enc_data_nil, app_nil_r, enc_chunk_5. unfold enc5. cbn [firstn].
       pose proof (enc5_small b0 b1 0 0 0 H0 H1 Hz Hz Hz) as Hs. unfold enc5 in Hs.
       split; [reflexivity|]. split.
       * repeat match goal with H : Forall _ (_ :: _) |- _ => inversion H; clear H; subst end.
         repeat constructor; assumption.
       * intros fuel2 Hf. destruct fuel2 as [|f2]; [lia|].
-        change (zb_dec_data (S f2) [q0 b0; q1 b0 b1; q2 b1; q3 b1 0])
-          with (zb_dec_chunk (enc5 b0 b1 0 0 0) ++ zb_dec_data f2 []).
+        change (crzb_dec_data (S f2) [q0 b0; q1 b0 b1; q2 b1; q3 b1 0])
+          with (crzb_dec_chunk (enc5 b0 b1 0 0 0) ++ crzb_dec_data f2 []).
         rewrite dec_data_nil, app_nil_r, <- enc_chunk_5, chunk_roundtrip by assumption. reflexivity.
     + apply bytesb_cons in Hb as [H0 Hb]. apply bytesb_cons in Hb as [H1 Hb]. apply bytesb_cons in Hb as [H2 _].
       assert (Hz : (0 < 256)) by lia.
       cbn [length]. change (nchars 3) with 5%nat. change (npad 3) with 2%nat.
-      change (zb_enc_data (S f) [b0; b1; b2]) with (zb_enc_chunk [b0; b1; b2; 0; 0] ++ zb_enc_data f []).
+      change (crzb_enc_data (S f) [b0; b1; b2]) with (crzb_enc_chunk [b0; b1; b2; 0; 0] ++ crzb_enc_data f []).
       rewrite enc_data_nil, app_nil_r, enc_chunk_5. unfold enc5. cbn [firstn].
       pose proof (enc5_small b0 b1 b2 0 0 H0 H1 H2 Hz Hz) as Hs. unfold enc5 in Hs.
       split; [reflexivity|]. split.
       * repeat match goal with H : Forall _ (_ :: _) |- _ => inversion H; clear H; subst end.
         repeat constructor; assumption.
       * intros fuel2 Hf. destruct fuel2 as [|f2]; [lia|].
-        change (zb_dec_data (S f2) [q0 b0; q1 b0 b1; q2 b1; q3 b1 b2; q4 b2 0])
-          with (zb_dec_chunk (enc5 b0 b1 b2 0 0) ++ zb_dec_data f2 []).
+        change (crzb_dec_data (S f2) [q0 b0; q1 b0 b1; q2 b1; q3 b1 b2; q4 b2 0])
+          with (crzb_dec_chunk (enc5 b0 b1 b2 0 0) ++ crzb_dec_data f2 []).
         rewrite dec_data_nil, app_nil_r, <- enc_chunk_5, chunk_roundtrip by assumption. reflexivity.
     + apply bytesb_cons in Hb as [H0 Hb]. apply bytesb_cons in Hb as [H1 Hb].
       apply bytesb_cons in Hb as [H2 Hb]. apply bytesb_cons in Hb as [H3 _].
       assert (Hz : (0 < 256)) by lia.
       cbn [length]. change (nchars 4) with 7%nat. change (npad 4) with 1%nat.
-      change (zb_enc_data (S f) [b0; b1; b2; b3]) with (zb_enc_chunk [b0; b1; b2; b3; 0] ++ zb_enc_data f []).
+      change (crzb_enc_data (S f) [b0; b1; b2; b3]) with (crzb_enc_chunk [b0; b1; b2; b3; 0] ++ crzb_enc_data f []).
       rewrite enc_data_nil, app_nil_r, enc_chunk_5. unfold enc5. cbn [firstn].
       pose proof (enc5_small b0 b1 b2 b3 0 H0 H1 H2 H3 Hz) as Hs. unfold enc5 in Hs.
       split; [reflexivity|]. split.
       * repeat match goal with H : Forall _ (_ :: _) |- _ => inversion H; clear H; subst end.
         repeat constructor; assumption.
       * intros fuel2 Hf. destruct fuel2 as [|f2]; [lia|].
-        change (zb_dec_data (S f2) [q0 b0; q1 b0 b1; q2 b1; q3 b1 b2; q4 b2 b3; q5 b3; q6 b3 0])
-          with (zb_dec_chunk (enc5 b0 b1 b2 b3 0) ++ zb_dec_data f2 []).
+        change (crzb_dec_data (S f2) [q0 b0; q1 b0 b1; q2 b1; q3 b1 b2; q4 b2 b3; q5 b3; q6 b3 0])
+          with (crzb_dec_chunk (enc5 b0 b1 b2 b3 0) ++ crzb_dec_data f2 []).
         rewrite dec_data_nil, app_nil_r, <- enc_chunk_5, chunk_roundtrip by assumption. reflexivity.
     + (* a full group, then the rest by induction *)
       apply bytesb_cons in Hb as [H0 Hb]. apply bytesb_cons in Hb as [H1 Hb].
@@ -260,8 +260,8 @@ Proof.
       destruct (IH rest Hl Hb) as (IHlen & IHsmall & IHdec).
       replace (length (b0 :: b1 :: b2 :: b3 :: b4 :: rest)) with (5 + length rest)%nat by reflexivity.
       rewrite nchars_step, npad_step, enc_data_step.
-      replace (firstn (8 + nchars (length rest)) (enc5 b0 b1 b2 b3 b4 ++ zb_enc_data f rest))
-        with (enc5 b0 b1 b2 b3 b4 ++ firstn (nchars (length rest)) (zb_enc_data f rest))
+      replace (firstn (8 + nchars (length rest)) (enc5 b0 b1 b2 b3 b4 ++ crzb_enc_data f rest))
+        with (enc5 b0 b1 b2 b3 b4 ++ firstn (nchars (length rest)) (crzb_enc_data f rest))
         by (unfold enc5; reflexivity).
       split; [|split].
       * rewrite app_length, IHlen. reflexivity.
@@ -306,44 +306,44 @@ Lemma forallb_zero_repeat n : forallb (fun c => c =? 0) (repeat 0 n) = true.
 Proof. induction n; [reflexivity|]. cbn [repeat forallb]. rewrite IHn. reflexivity. Qed.
 
 (* ---- C17_zbase32_roundtrip ---- *)
-Theorem zbase32_roundtrip data : bytesb data = true -> zb_decode (zb_encode data) = Some data.
+Theorem zbase32_roundtrip data : bytes_wf data = true -> crzb_decode (crzb_encode data) = Some data.
 Proof.
   intros Hb.
   destruct (data_roundtrip (length data) data (le_n _) Hb) as (Hlen & Hsmall & Hdec).
   fold (nchars (length data)) in *.
-  set (Q := firstn (nchars (length data)) (zb_enc_data (length data) data)) in *.
-  assert (He : zb_encode data = map alpha Q) by reflexivity.
+  set (Q := firstn (nchars (length data)) (crzb_enc_data (length data) data)) in *.
+  assert (He : crzb_encode data = map alpha Q) by reflexivity.
   destruct (nchars_arith (length data)) as [Hmod Hn].
-  unfold zb_decode. rewrite He, map_length, Hlen, Hmod.
+  unfold crzb_decode. rewrite He, map_length, Hlen, Hmod.
   rewrite inv_alpha_all by exact Hsmall. rewrite Hdec by apply le_n. rewrite Hn.
   rewrite skipn_app, skipn_all, Nat.sub_diag. cbn [skipn app]. rewrite forallb_zero_repeat.
   rewrite firstn_app, Nat.sub_diag, firstn_all. cbn [firstn]. rewrite app_nil_r. reflexivity.
 Qed.
 
-Lemma zb_encode_length data : bytesb data = true -> length (zb_encode data) = nchars (length data).
+Lemma zb_encode_length data : bytes_wf data = true -> length (crzb_encode data) = nchars (length data).
 Proof.
   intros Hb. destruct (data_roundtrip (length data) data (le_n _) Hb) as (Hlen & _ & _).
-  unfold zb_encode. rewrite map_length. exact Hlen.
+  unfold crzb_encode. rewrite map_length. exact Hlen.
 Qed.
 
 (* ---- C17_sigrec_layout ---- *)
 (* the text of a signature is the zbase32 spelling (104 characters) of exactly 65 bytes:
    31 + recovery id, then the 64-byte compact signature; decoding gives both back *)
 Theorem sigrec_layout rid compact :
-  rid < 4 -> length compact = 64%nat -> bytesb compact = true ->
-  zb_decode (sig_encode rid compact) = Some ((31 + rid) :: compact) /\
-  length (sig_encode rid compact) = 104%nat /\
-  sig_decode (sig_encode rid compact) = Some (rid, compact).
+  rid < 4 -> length compact = 64%nat -> bytes_wf compact = true ->
+  crzb_decode (lnsig_encode rid compact) = Some ((31 + rid) :: compact) /\
+  length (lnsig_encode rid compact) = 104%nat /\
+  lnsig_decode (lnsig_encode rid compact) = Some (rid, compact).
 Proof.
   intros Hr Hl Hb.
-  assert (Hb' : bytesb (sigrec_encode rid compact) = true).
-  { unfold sigrec_encode, SIGREC_BASE, bytesb. cbn [forallb]. apply andb_true_iff. split; [|exact Hb].
+  assert (Hb' : bytes_wf (sigrec_encode rid compact) = true).
+  { unfold sigrec_encode, SIGREC_BASE, bytes_wf. cbn [forallb]. apply andb_true_iff. split; [|exact Hb].
     apply N.ltb_lt. lia. }
-  assert (Hd : zb_decode (sig_encode rid compact) = Some ((31 + rid) :: compact)).
-  { unfold sig_encode. rewrite zbase32_roundtrip by exact Hb'. reflexivity. }
+  assert (Hd : crzb_decode (lnsig_encode rid compact) = Some ((31 + rid) :: compact)).
+  { unfold lnsig_encode. rewrite zbase32_roundtrip by exact Hb'. reflexivity. }
   split; [exact Hd|]. split.
-  - unfold sig_encode. rewrite zb_encode_length by exact Hb'. unfold sigrec_encode. cbn [length]. rewrite Hl. reflexivity.
-  - unfold sig_decode. rewrite Hd. unfold sigrec_decode, SIGREC_BASE. cbn [length]. rewrite Hl.
+  - unfold lnsig_encode. rewrite zb_encode_length by exact Hb'. unfold sigrec_encode. cbn [length]. rewrite Hl. reflexivity.
+  - unfold lnsig_decode. rewrite Hd. unfold sigrec_decode, SIGREC_BASE. cbn [length]. rewrite Hl.
     change (Nat.eqb 65 65) with true.
     replace (31 <=? 31 + rid) with true by (symmetry; apply N.leb_le; lia).
     replace (31 + rid <=? 31 + 3) with true by (symmetry; apply N.leb_le; lia).
